@@ -262,8 +262,14 @@ func RunSim(t *testing.T, c *Case, keepTrace bool, body Body) (res *Result) {
 			env = &Env{T: t, S: s, Seed: c.Seed, Case: c, Res: res, keepObs: keepTrace}
 			txfile.VerifYield = s.Yield
 			txfile.VerifYieldUntil = s.YieldUntil
-			fr := env.Rng("flush-order")
+			// the flush order is a function of the seed and of the set of pages
+			// to flush (twin runs flushing the same pages use the same order)
 			txfile.VerifFlushOrder = func(ids []PageID) {
+				h := simsched.Mix(c.Seed, 0xf1a5)
+				for _, id := range ids {
+					h = simsched.Mix(h, uint64(id))
+				}
+				fr := simsched.NewRand(h)
 				for i := len(ids) - 1; i > 0; i-- {
 					j := fr.Intn(i + 1)
 					ids[i], ids[j] = ids[j], ids[i]
